@@ -2,109 +2,113 @@ import BufProofs.Lemmas.ManagedLemmas
 /-
   C18 — managed mode rewrites only what it governs.
 
-  `modify cfg img` is the model of `bufimagemodify.Modify(image, config)` (after the fix of the
-  sweeper, see `sweep_old_counterexample`); `modifyWith fixed preserve` additionally models the
-  `ModifyPreserveExisting` option and the sweeper before the fix.
+  `modifyWith true p cfg img` is the model of `bufimagemodify.Modify(image, config)` — with
+  `ModifyPreserveExisting()` iff `p` — after the fix of the sweeper (see
+  `sweep_old_counterexample`); `modify cfg img = modifyWith true false cfg img`.
+  Every theorem below is stated for both values of `p` (the harness runs both).
 
-  `Out cfg img f f'` = "f' is the output file at the position of input file f".
+  `Out p cfg img f f'` = "f' is the output file at the position of input file f".
+
+  The image model carries every FileOptions / FieldOptions entry by field number (governed or
+  not, known or unknown to managed mode) and opaque payloads for the rest of the descriptor, so
+  "nothing else changes" is a statement about `getOpt n` for EVERY field number `n`.
 -/
 namespace BufProofs.C18
 open BufModel.Managed BufProofs.ManagedLemmas
 
 /-- same number of files, in the same order. -/
-theorem modify_length (cfg : Config) (img : List File) :
-    (BufModel.Managed.modify cfg img).files.length = img.length := by
+theorem modify_length (p : Bool) (cfg : Config) (img : List File) :
+    (modifyWith true p cfg img).files.length = img.length := by
   cases h : cfg.enabled
-  · unfold BufModel.Managed.modify modifyWith; simp [h]
-  · exact (AllRel.length_eq (modifyWith_rel true false cfg img h)).symm
+  · unfold modifyWith; simp [h]
+  · exact (AllRel.length_eq (modifyWith_rel true p cfg img h)).symm
 
 /-- With managed mode disabled the image is untouched (and no error is reported). -/
-theorem disabled_mode_identity (cfg : Config) (img : List File) (h : cfg.enabled = false) :
-    (BufModel.Managed.modify cfg img).files = img ∧ (BufModel.Managed.modify cfg img).err = false := by
-  unfold BufModel.Managed.modify modifyWith; simp [h]
+theorem disabled_mode_identity (p : Bool) (cfg : Config) (img : List File) (h : cfg.enabled = false) :
+    (modifyWith true p cfg img).files = img ∧ (modifyWith true p cfg img).err = false := by
+  unfold modifyWith; simp [h]
 
-theorem out_rel {cfg : Config} {img : List File} {f f' : File} (he : cfg.enabled = true)
-    (h : Out cfg img f f') : OutRel true false cfg f f' := by
-  obtain ⟨i, h1, h2⟩ := h
-  exact AllRel.get (modifyWith_rel true false cfg img he) i f f' h1 h2
+/-- The thirteen modifiers run one after the other, each on the file as the previous ones left
+    it (`modifyFile`, as coded); the result is the same as deciding every option on the INPUT
+    file: each modifier reads only path / package / module and its own option. -/
+theorem modifiers_independent (p : Bool) (cfg : Config) (f : File) :
+    modifyFile p cfg f = (applyOptions p cfg f, marks p cfg f) := modifyFile_eq p cfg f
 
-/-- Frame: everything that is not a governed option is unchanged in every file — the opaque
-    rest of the descriptor, path, package, module, every field's name / path / type / rest;
-    the source-info list only loses entries (the survivors are unchanged and in order).
-    Holds whether or not the sweep reports an error. -/
-theorem frame (cfg : Config) (img : List File) {f f' : File} (h : Out cfg img f f') :
-    FileFrame f f' := by
+/-- The options and fields of an output file are those computed by the thirteen modifiers on
+    the input file alone (no dependence on other files, on the sweep or on its error). -/
+theorem out_options {p : Bool} {cfg : Config} {img : List File} {f f' : File} (he : cfg.enabled = true)
+    (h : Out p cfg img f f') :
+    f'.opts = (modifyOptions p cfg f).opts ∧ f'.fields = (modifyOptions p cfg f).fields := by
+  obtain ⟨l, rfl, _⟩ := out_rel he h
+  exact ⟨rfl, rfl⟩
+
+/-- FRAME.  For every file of the image, whatever the configuration and whether or not the
+    sweep reports an error:
+    * the opaque payload (messages, enums, services, dependencies, … everything outside file
+      options, field options and source info), path, package and module are unchanged;
+    * for EVERY FileOptions field number `n` that managed mode does not govern for this file
+      (`¬ Governs`: not one of the twelve governed options — custom / unknown options included —
+      or managed mode disabled, or a well-known-type file, or exempted by a matching disable
+      rule, or already set under `ModifyPreserveExisting`) the value is unchanged;
+    * every field keeps name, path, type and opaque rest, and EVERY FieldOptions field number
+      other than jstype — and jstype too unless `JsGoverns` (a matching override, no matching
+      disable rule, a 64-bit integer type, not preserved) — is unchanged;
+    * the source-info list only loses entries (survivors unchanged, in order). -/
+theorem frame (p : Bool) (cfg : Config) (img : List File) {f f' : File} (h : Out p cfg img f f') :
+    FileFrame p cfg f f' := by
   cases he : cfg.enabled
   · obtain ⟨i, h1, h2⟩ := h
-    rw [(disabled_mode_identity cfg img he).1, h1] at h2
+    rw [(disabled_mode_identity p cfg img he).1, h1] at h2
     cases h2
-    exact ⟨rfl, rfl, rfl, rfl, AllRel.refl' (fun _ => ⟨rfl, rfl, rfl, rfl⟩) _, List.Sublist.refl _⟩
-  · exact outRel_frame (out_rel he h)
-
-/-- The governed options of an output file are those computed by the thirteen modifiers on the
-    input file alone (no dependence on other files, on the sweep or on its error). -/
-theorem out_options {cfg : Config} {img : List File} {f f' : File} (he : cfg.enabled = true)
-    (h : Out cfg img f f') :
-    f'.strOpts = (modifyOptions false cfg f).strOpts ∧
-    f'.boolOpts = (modifyOptions false cfg f).boolOpts ∧
-    f'.optimizeFor = (modifyOptions false cfg f).optimizeFor ∧
-    f'.fields = (modifyOptions false cfg f).fields := by
-  obtain ⟨l, rfl, _⟩ := out_rel he h
-  exact ⟨rfl, rfl, rfl, rfl⟩
+    exact ⟨rfl, rfl, rfl, rfl, fun _ _ => rfl,
+      AllRel.refl_of (fun _ => ⟨rfl, rfl, rfl, rfl, fun _ _ => rfl⟩) _, List.Sublist.refl _⟩
+  · exact outRel_frame he (out_rel he h)
 
 /-- Well-known-type files are returned exactly as they were (options, fields, source info). -/
-theorem wkt_untouched (cfg : Config) (img : List File) {f f' : File} (h : Out cfg img f f')
+theorem wkt_untouched (p : Bool) (cfg : Config) (img : List File) {f f' : File} (h : Out p cfg img f f')
     (hw : isWKT f.path = true) : f' = f := by
   cases he : cfg.enabled
   · obtain ⟨i, h1, h2⟩ := h
-    rw [(disabled_mode_identity cfg img he).1, h1] at h2
+    rw [(disabled_mode_identity p cfg img he).1, h1] at h2
     exact (Option.some.inj h2).symm
   · obtain ⟨l, rfl, hl⟩ := out_rel he h
-    have hm : modifyOptions false cfg f = f := by unfold modifyOptions; simp [hw]
-    have hk : fileMarks false cfg f = [] := by unfold fileMarks; simp [hw]
+    have hm : modifyOptions p cfg f = f := by unfold modifyOptions; simp [hw]
+    have hk : fileMarks p cfg f = [] := by unfold fileMarks; simp [hw]
     simp only [hm, hk] at hl ⊢
     rcases hl with rfl | hs
     · rfl
     · unfold sweepLocs at hs; simp at hs; subst hs; rfl
 
-
 /-! ### disable rules -/
 
+/-- A disable rule matching the file and a governed option (or all options) leaves that option
+    exactly as it was — any of the twelve (`g`), whatever overrides exist. -/
+theorem disabled_untouched_file_option {p : Bool} {cfg : Config} {img : List File} {f f' : File}
+    (h : Out p cfg img f f') (g : Gov)
+    (hd : isFileOptionDisabled cfg f g.fileOpt = true) : getOpt g.tag f'.opts = getOpt g.tag f.opts := by
+  apply (frame p cfg img h).2.2.2.2.1
+  rintro ⟨_, _, g', ht, hd', _⟩
+  have : g' = g := Gov.tag_inj _ _ ht
+  subst this
+  rw [hd] at hd'; cases hd'
 
-/-- A disable rule matching the file and the option (or all options) leaves a string option
-    exactly as it was. -/
-theorem disabled_untouched_str {cfg : Config} {img : List File} {f f' : File}
-    (he : cfg.enabled = true) (h : Out cfg img f f') (o : StrOpt)
+theorem disabled_untouched_str {p : Bool} {cfg : Config} {img : List File} {f f' : File}
+    (h : Out p cfg img f f') (o : StrOpt)
     (hd : isFileOptionDisabled cfg f o.valueOpt = true) : f'.strOpts o = f.strOpts o := by
-  rw [(out_options he h).1]
-  unfold modifyOptions applyOptions
-  split
-  · rfl
-  · have : strChange false cfg f o = none := by
-      unfold strChange strTarget; simp [stringOverride_disabled hd]
-    simp [this]
+  have h1 : getOpt o.tag f'.opts = getOpt o.tag f.opts := disabled_untouched_file_option h (.str o) hd
+  unfold File.strOpts; rw [h1]
 
-theorem disabled_untouched_bool {cfg : Config} {img : List File} {f f' : File}
-    (he : cfg.enabled = true) (h : Out cfg img f f') (o : BoolOpt)
+theorem disabled_untouched_bool {p : Bool} {cfg : Config} {img : List File} {f f' : File}
+    (h : Out p cfg img f f') (o : BoolOpt)
     (hd : isFileOptionDisabled cfg f o.fileOpt = true) : f'.boolOpts o = f.boolOpts o := by
-  rw [(out_options he h).2.1]
-  unfold modifyOptions applyOptions
-  split
-  · rfl
-  · have : boolChange false cfg f o = none := by
-      unfold boolChange boolTarget; simp [hd]
-    simp [this]
+  have h1 : getOpt o.tag f'.opts = getOpt o.tag f.opts := disabled_untouched_file_option h (.bool o) hd
+  unfold File.boolOpts; rw [h1]
 
-theorem disabled_untouched_optimize {cfg : Config} {img : List File} {f f' : File}
-    (he : cfg.enabled = true) (h : Out cfg img f f')
+theorem disabled_untouched_optimize {p : Bool} {cfg : Config} {img : List File} {f f' : File}
+    (h : Out p cfg img f f')
     (hd : isFileOptionDisabled cfg f .optimizeFor = true) : f'.optimizeFor = f.optimizeFor := by
-  rw [(out_options he h).2.2.1]
-  unfold modifyOptions applyOptions
-  split
-  · rfl
-  · have : optimizeChange false cfg f = none := by
-      unfold optimizeChange optimizeTarget; simp [hd]
-    simp [this]
+  have h1 : getOpt optimizeForTag f'.opts = getOpt optimizeForTag f.opts := disabled_untouched_file_option h .optimize hd
+  unfold File.optimizeFor; rw [h1]
 
 /-- `isFileOptionDisabled` is exactly: some disable rule names this option or no option, names
     no field option, and matches the file by path containment and module. -/
@@ -115,53 +119,48 @@ theorem isFileOptionDisabled_iff (cfg : Config) (f : File) (o : FileOption) :
   unfold isFileOptionDisabled
   simp [List.any_eq_true, and_assoc]
 
+/-- … and for jstype: some disable rule is for jstype or for everything, matches the file, and
+    names this field or no field. -/
+theorem jsDisabledFor_iff (cfg : Config) (f : File) (name : List Char) :
+    jsDisabledFor cfg f name = true ↔
+      ∃ d ∈ cfg.disables, (d.jstype = true ∨ d.fileOption = .unspecified) ∧
+        fileMatch f d.path d.module = true ∧ (d.fieldName = [] ∨ d.fieldName = name) := by
+  unfold jsDisabledFor
+  simp [List.any_eq_true, and_assoc]
+
 /-- A disable rule for jstype (or for all options) that matches the file and names this field
-    (or no field) leaves the field's jstype as it was. -/
-theorem disabled_untouched_jstype {cfg : Config} {img : List File} {f f' : File}
-    (he : cfg.enabled = true) (h : Out cfg img f f') (d : Disable) (hd : d ∈ cfg.disables)
+    (or no field) leaves every option of the field, jstype included, as it was. -/
+theorem disabled_untouched_jstype {p : Bool} {cfg : Config} {img : List File} {f f' : File}
+    (h : Out p cfg img f f') (d : Disable) (hd : d ∈ cfg.disables)
     (hopt : d.jstype = true ∨ d.fileOption = .unspecified)
     (hm : fileMatch f d.path d.module = true)
-    (j : Nat) (fd : Field) (hj : f.fields[j]? = some fd)
-    (hf : d.fieldName = [] ∨ d.fieldName = fd.fullName) : f'.fields[j]? = some fd := by
-  rw [(out_options he h).2.2.2]
-  unfold modifyOptions applyOptions
-  split
-  · exact hj
-  · have hmem : d ∈ jsDisables cfg f := by
-      unfold jsDisables
-      simp only [List.mem_filter, hd, hm, Bool.and_true, true_and]
-      rcases hopt with h1 | h2
-      · simp [h1]
-      · cases hjs : d.jstype <;> simp [h2]
-    have : jsChange false cfg f fd = none := by
-      unfold jsChange
-      rcases hf with h0 | h1
-      · have : jsFileActive cfg f = false := by
-          unfold jsFileActive
-          have : (jsDisables cfg f).any (fun r => r.fieldName = []) = true :=
-            List.any_eq_true.mpr ⟨d, hmem, by simp [h0]⟩
-          simp [this]
-        simp [this]
-      · have : (jsDisables cfg f).any (fun r => r.fieldName = fd.fullName) = true :=
-          List.any_eq_true.mpr ⟨d, hmem, by simp [h1]⟩
-        simp [this]
-    simp [List.getElem?_map, hj, applyField, this]
+    (j : Nat) (fd fd' : Field) (hj : f.fields[j]? = some fd) (hj' : f'.fields[j]? = some fd')
+    (hf : d.fieldName = [] ∨ d.fieldName = fd.fullName) :
+    ∀ n, getOpt n fd'.opts = getOpt n fd.opts := by
+  intro n
+  have hff := AllRel.get (frame p cfg img h).2.2.2.2.2.1 j fd fd' hj hj'
+  apply hff.2.2.2.2 n
+  right
+  rintro ⟨_, _, hdis, _⟩
+  have : jsDisabledFor cfg f fd.fullName = true :=
+    (jsDisabledFor_iff cfg f fd.fullName).mpr ⟨d, hd, hopt, hm, hf⟩
+  rw [this] at hdis; cases hdis
 
 /-! ### precedence: last matching override, else the managed default -/
 
-/-- bool options: in a file that is not a WKT and not exempted, the effective value after
-    `modify` is the value of the last matching override, else the managed default. -/
-theorem precedence_bool {cfg : Config} {img : List File} {f f' : File}
-    (he : cfg.enabled = true) (h : Out cfg img f f') (o : BoolOpt)
-    (hw : isWKT f.path = false) (hd : isFileOptionDisabled cfg f o.fileOpt = false) :
+/-- bool options: in a file that is not a WKT, not exempted and (under preserve-existing) not
+    already set, the effective value after `Modify` is the value of the LAST matching
+    override, else the managed default.  (Exempted / preserved: `frame` says unchanged.) -/
+theorem precedence_bool {p : Bool} {cfg : Config} {img : List File} {f f' : File}
+    (he : cfg.enabled = true) (h : Out p cfg img f f') (o : BoolOpt)
+    (hw : isWKT f.path = false) (hd : isFileOptionDisabled cfg f o.fileOpt = false)
+    (hp : (p && (f.boolOpts o).isSome) = false) :
     (f'.boolOpts o).getD o.protoDefault =
       (((cfg.overrides.filter fun r => fileMatch f r.path r.module && r.fileOption = o.fileOpt).getLast?).map
         (·.bval)).getD o.managedDefault := by
-  rw [(out_options he h).2.1, ← lastOverride_eq]
-  unfold modifyOptions applyOptions
-  simp only [hw, Bool.false_eq_true, ↓reduceIte]
+  rw [(out_typed he h hw).2.1 o, applyOptions_boolOpts, ← lastOverride_eq]
   unfold boolChange boolTarget
-  simp only [hd, Bool.false_and, Bool.false_eq_true, ↓reduceIte]
+  simp only [hd, hp, Bool.false_eq_true, ↓reduceIte]
   cases lastOverride cfg f o.fileOpt with
   | none =>
     simp only [Option.map_none, Option.getD_none]
@@ -175,17 +174,16 @@ theorem precedence_bool {cfg : Config} {img : List File} {f f' : File}
     · simp [hc]
 
 /-- optimize_for: same precedence, default SPEED. -/
-theorem precedence_optimize {cfg : Config} {img : List File} {f f' : File}
-    (he : cfg.enabled = true) (h : Out cfg img f f')
-    (hw : isWKT f.path = false) (hd : isFileOptionDisabled cfg f .optimizeFor = false) :
+theorem precedence_optimize {p : Bool} {cfg : Config} {img : List File} {f f' : File}
+    (he : cfg.enabled = true) (h : Out p cfg img f f')
+    (hw : isWKT f.path = false) (hd : isFileOptionDisabled cfg f .optimizeFor = false)
+    (hp : (p && f.optimizeFor.isSome) = false) :
     f'.optimizeFor.getD optimizeSpeed =
       (((cfg.overrides.filter fun r => fileMatch f r.path r.module && r.fileOption = .optimizeFor).getLast?).map
         (·.nval)).getD optimizeSpeed := by
-  rw [(out_options he h).2.2.1, ← lastOverride_eq]
-  unfold modifyOptions applyOptions
-  simp only [hw, Bool.false_eq_true, ↓reduceIte]
+  rw [(out_typed he h hw).2.2.1, applyOptions_optimizeFor, ← lastOverride_eq]
   unfold optimizeChange optimizeTarget
-  simp only [hd, Bool.false_and, Bool.false_eq_true, ↓reduceIte]
+  simp only [hd, hp, Bool.false_eq_true, ↓reduceIte]
   cases lastOverride cfg f .optimizeFor with
   | none =>
     simp only [Option.map_none, Option.getD_none]
@@ -198,93 +196,74 @@ theorem precedence_optimize {cfg : Config} {img : List File} {f f' : File}
     · simp [hc]
     · simp [hc]
 
-/-- `jsTarget` is the value of the last override for jstype that matches the file and names
-    this field or no field. -/
-theorem jsTarget_eq (cfg : Config) (f : File) (name : List Char) :
-    jsTarget cfg f name =
-      ((cfg.overrides.filter fun r => (r.jstype && fileMatch f r.path r.module) &&
-          (r.fieldName = [] || r.fieldName = name)).getLast?).map (·.nval) := by
-  unfold jsTarget jsOverrides
-  have := foldl_last (fun r : Override => decide (r.fieldName = []) || decide (r.fieldName = name)) (·.nval)
-    (cfg.overrides.filter fun r => r.jstype && fileMatch f r.path r.module) none
-  simp only [Bool.or_eq_true, decide_eq_true_eq] at this
-  simp only [Bool.or_eq_true, decide_eq_true_eq, this, Option.or_none, List.filter_filter]
-  congr 2
-  apply List.filter_congr
-  intro r _
-  cases r.jstype <;> cases fileMatch f r.path r.module <;> simp
-
-/-- jstype is only ever rewritten to the value of the last matching override (there is no
-    default for jstype). -/
-theorem precedence_jstype {cfg : Config} {img : List File} {f f' : File}
-    (he : cfg.enabled = true) (h : Out cfg img f f')
-    (j : Nat) (fd fd' : Field) (hj : f.fields[j]? = some fd) (hj' : f'.fields[j]? = some fd')
-    (hne : fd'.jstype ≠ fd.jstype) :
-    fd'.jstype =
-      ((cfg.overrides.filter fun r => (r.jstype && fileMatch f r.path r.module) &&
-          (r.fieldName = [] || r.fieldName = fd.fullName)).getLast?).map (·.nval) := by
-  rw [(out_options he h).2.2.2] at hj'
-  unfold modifyOptions applyOptions at hj'
-  split at hj'
-  · rw [hj] at hj'; cases hj'; exact absurd rfl hne
-  · simp only [List.getElem?_map, hj, Option.map_some, Option.some.injEq] at hj'
-    subst hj'
-    unfold applyField at hne ⊢
-    cases hc : jsChange false cfg f fd with
-    | none => simp [hc] at hne
-    | some v =>
-      dsimp only
-      rw [← jsTarget_eq]
-      unfold jsChange at hc
-      split at hc; · cases hc
-      split at hc; · cases hc
-      split at hc; · cases hc
-      rename_i v' hv'
-      split at hc; · cases hc
-      split at hc; · cases hc
-      split at hc; · cases hc
-      split at hc; · cases hc
-      cases hc; exact hv'.symm
-
+/-- jstype, both directions: the jstype of EVERY field after `Modify` is `jsWant` — unchanged
+    in a WKT file, when a disable rule covers the field, when no override for jstype matches
+    file and field, when it is set and existing values are preserved, or when the field is not
+    a 64-bit integer; otherwise the value of the LAST matching override (`jsSpec`).  So jstype
+    changes exactly when `jsWant` differs from the old value, and only to that value. -/
+theorem precedence_jstype {p : Bool} {cfg : Config} {img : List File} {f f' : File}
+    (he : cfg.enabled = true) (h : Out p cfg img f f')
+    (j : Nat) (fd : Field) (hj : f.fields[j]? = some fd) :
+    ∃ fd', f'.fields[j]? = some fd' ∧ fd'.jstype = jsWant p cfg f fd := by
+  obtain ⟨_, h2⟩ := out_options he h
+  rw [modifyOptions_eq] at h2
+  by_cases hw : isWKT f.path = true
+  · simp only [hw, ↓reduceIte] at h2
+    exact ⟨fd, by rw [h2]; exact hj, by unfold jsWant; simp [hw]⟩
+  · simp only [hw, Bool.false_eq_true, ↓reduceIte] at h2
+    refine ⟨applyField p cfg f fd, ?_, applyField_jstype_spec p cfg f fd⟩
+    rw [h2]; show (f.fields.map (applyField p cfg f))[j]? = _
+    simp [hj]
 
 /-! ### string options -/
 
-/-- string options: whenever the modifier computes a target value `v` (from the last matching
-    overrides, else from the default formula), the effective value after `modify` is `v`. -/
-theorem precedence_str_effective {cfg : Config} {img : List File} {f f' : File}
-    (he : cfg.enabled = true) (h : Out cfg img f f') (o : StrOpt)
-    (hw : isWKT f.path = false) (v : List Char) (ht : strTarget cfg f o = some v) :
-    (f'.strOpts o).getD [] = v := by
-  rw [(out_options he h).1]
-  unfold modifyOptions applyOptions
-  simp only [hw, Bool.false_eq_true, ↓reduceIte]
+/-- String options, completely: in a file that is not a WKT, the value of governed string
+    option `o` after `Modify` is
+    * the old value, when it is set and existing values are preserved;
+    * otherwise `strSpec cfg f o` when that is `some v` — see `strSpec` / `strSpecSOO` /
+      `specSOO`: not exempted by a disable rule; among the override rules matching the file by
+      path containment and module, the last value override wins over everything before it,
+      later prefix / suffix overrides (of usable companions) blank the value and keep each
+      other, the default formula is applied to the winning prefix / suffix, an all-blank
+      result or an empty computed value means "leave alone";
+    * otherwise the old value.
+    This is an equation between the implementation model's output and a declarative
+    description, hence both directions. -/
+theorem precedence_str {p : Bool} {cfg : Config} {img : List File} {f f' : File}
+    (he : cfg.enabled = true) (h : Out p cfg img f f') (o : StrOpt) (hw : isWKT f.path = false) :
+    f'.strOpts o =
+      if p && (f.strOpts o).isSome then f.strOpts o
+      else match strSpec cfg f o with
+        | some v => some v
+        | none => f.strOpts o := by
+  rw [(out_typed he h hw).1 o, applyOptions_strOpts]
   unfold strChange
-  simp only [Bool.false_and, Bool.false_eq_true, ↓reduceIte, ht]
-  by_cases hc : (f.strOpts o).getD [] = v
-  · simp [hc]
-  · simp [hc]
-
-/-- … and when it computes none (option disabled, nothing configured and no default, or the
-    computed value is empty) the option is left exactly as it was. -/
-theorem str_untouched_without_target {cfg : Config} {img : List File} {f f' : File}
-    (he : cfg.enabled = true) (h : Out cfg img f f') (o : StrOpt)
-    (ht : strTarget cfg f o = none) : f'.strOpts o = f.strOpts o := by
-  rw [(out_options he h).1]
-  unfold modifyOptions applyOptions
-  split
-  · rfl
-  · unfold strChange; simp [ht]
+  rw [strTarget_eq_spec]
+  by_cases hp : (p && (f.strOpts o).isSome) = true
+  · simp [hp]
+  · simp only [hp, Bool.false_eq_true, ↓reduceIte]
+    cases hs : strSpec cfg f o with
+    | none => rfl
+    | some v =>
+      simp only
+      by_cases hc : (f.strOpts o).getD [] = v
+      · simp only [hc, ↓reduceIte]
+        cases hfo : f.strOpts o with
+        | none => rw [hfo] at hc; exact absurd hc.symm (strSpec_ne_nil hs)
+        | some w => rw [hfo] at hc; simp at hc; rw [hc]
+      · simp [hc]
 
 /-- Override before default, last match wins: if the last override that concerns the option is
-    a value override with a non-empty value, that value is the target — whatever prefix,
-    suffix or value overrides precede it and whatever the default formula gives. -/
+    a value override with a non-empty value, that value is what managed mode wants — whatever
+    prefix, suffix or value overrides precede it and whatever the default formula gives. -/
 theorem precedence_str_last_value {cfg : Config} {f : File} (o : StrOpt)
     (hd : isFileOptionDisabled cfg f o.valueOpt = false)
     (pre post : List Override) (r : Override) (hsplit : cfg.overrides = pre ++ r :: post)
     (hm : fileMatch f r.path r.module = true) (hv : r.fileOption = o.valueOpt)
     (hne : r.sval ≠ [])
     (hpost : ∀ r' ∈ post, relevant f o r' = false) :
-    strTarget cfg f o = some r.sval := by
+    strSpec cfg f o = some r.sval := by
+  rw [← strTarget_eq_spec]
   have hso : stringOverride cfg f (o.defaultSOO f) o.valueOpt o.prefixOpt o.suffixOpt = ⟨r.sval, [], []⟩ := by
     unfold stringOverride
     simp only [hd, Bool.false_eq_true, ↓reduceIte, hsplit, List.foldl_append, List.foldl_cons]
@@ -297,28 +276,53 @@ theorem precedence_str_last_value {cfg : Config} {f : File} (o : StrOpt)
     intro hc; apply hne; exact congrArg SOO.value hc
   simp [h1, hne]
 
-/-- Default: with no override concerning the option (and the option not disabled) the target
-    comes from the default formula alone — the default options with the prefix / suffix
-    blanked when their companion option is disabled. -/
+/-- Default: with no override concerning the option (and the option not disabled) the override
+    options are the managed default alone — prefix / suffix blanked when their companion option
+    does not exist or is disabled. -/
 theorem precedence_str_default {cfg : Config} {f : File} (o : StrOpt)
     (hd : isFileOptionDisabled cfg f o.valueOpt = false)
     (hnone : ∀ r ∈ cfg.overrides, relevant f o r = false) :
-    stringOverride cfg f (o.defaultSOO f) o.valueOpt o.prefixOpt o.suffixOpt =
+    strSpecSOO cfg f o =
       ⟨(o.defaultSOO f).value,
-       if (o.prefixOpt = .unspecified || isFileOptionDisabled cfg f o.prefixOpt) then [] else (o.defaultSOO f).pfx,
-       if (o.suffixOpt = .unspecified || isFileOptionDisabled cfg f o.suffixOpt) then [] else (o.defaultSOO f).suffix⟩ := by
+       if usePfx cfg f o then (o.defaultSOO f).pfx else [],
+       if useSfx cfg f o then (o.defaultSOO f).suffix else []⟩ := by
+  rw [← stringOverride_eq_spec cfg f o hd]
   unfold stringOverride
   simp only [hd, Bool.false_eq_true, ↓reduceIte]
-  exact foldl_irrelevant cfg f o cfg.overrides hnone _
+  rw [foldl_irrelevant cfg f o cfg.overrides hnone _]
+  unfold usePfx useSfx
+  congr 1
+  · cases (decide (o.prefixOpt = FileOption.unspecified) || isFileOptionDisabled cfg f o.prefixOpt) <;> rfl
+  · cases (decide (o.suffixOpt = FileOption.unspecified) || isFileOptionDisabled cfg f o.suffixOpt) <;> rfl
 
+/-! ### marks = options whose value changed -/
+
+/-- File options of every kind (string, bool, optimize_for): a modifier writes and marks
+    exactly when the value of its option differs afterwards. -/
+theorem marked_iff_changed_file_option (p : Bool) (cfg : Config) (f : File) (g : Gov) :
+    (govChange p cfg f g).isSome = true ↔
+      getOpt g.tag (applyOptions p cfg f).opts ≠ getOpt g.tag f.opts :=
+  gov_marked_iff_changed p cfg f g
+
+/-- jstype: same. -/
+theorem marked_iff_changed_jstype (p : Bool) (cfg : Config) (f : File) (fd : Field) :
+    (jsChange p cfg f fd).isSome = true ↔
+      getOpt jstypeTag (applyField p cfg f fd).opts ≠ getOpt jstypeTag fd.opts :=
+  js_marked_iff_changed p cfg f fd
+
+/-- The paths handed to the sweeper for a file are exactly the SourceCodeInfo paths of the
+    options whose VALUE differs between the input file and the modified file: `[8, n]` for
+    FileOptions field `n`, `field path ++ [8, 6]` for a field's jstype (`Changed`). -/
+theorem marks_exact (p : Bool) (cfg : Config) (f : File) (q : List Nat) :
+    q ∈ fileMarks p cfg f ↔ Changed f (modifyOptions p cfg f) q :=
+  fileMarks_iff_changed p cfg f q
 
 /-! ### source-info sweep -/
 
-
-/-- Only locations of rewritten options are removed: every removed location is (a) a location
-    whose path is the path of a rewritten option (a mark), or (b) the `[8]` parent immediately
-    before the location of a rewritten file option, or (c) a FieldOptions location that is a
-    proper prefix of a removed field-option location. -/
+/-- Only locations of marked paths are removed: every removed location is (a) a location
+    whose path is a mark, or (b) the `[8]` parent immediately before the location of a marked
+    file option, or (c) a FieldOptions location that is a proper prefix of a marked
+    location. -/
 theorem sweep_sound (mk : List (List Nat)) (locs : List Loc) (rm : List Nat)
     (h : sweepRemoved true mk locs = some rm) (k : Nat) (hk : k ∈ rm) :
     (∃ loc : Loc, locs[k]? = some loc ∧ loc.path ∈ mk) ∨
@@ -346,10 +350,13 @@ theorem sweep_sound (mk : List (List Nat)) (locs : List Loc) (rm : List Nat)
       obtain ⟨j, loc', a, b, c⟩ := hhit he2.2
       exact ⟨j, loc', a, b, by rw [hp]; exact c⟩
 
-/-- … and every location whose path is the path of a rewritten option is removed. -/
+/-- … every location whose path is a mark is removed, and so is the location immediately
+    before a marked file-option location (its `[8]` parent). -/
 theorem sweep_complete (fixed : Bool) (mk : List (List Nat)) (locs : List Loc) (rm : List Nat)
-    (h : sweepRemoved fixed mk locs = some rm) (k : Nat) (loc : Loc)
-    (hk : locs[k]? = some loc) (hm : loc.path ∈ mk) : k ∈ rm := by
+    (h : sweepRemoved fixed mk locs = some rm) :
+    (∀ (k : Nat) (loc : Loc), locs[k]? = some loc → loc.path ∈ mk → k ∈ rm) ∧
+    (∀ (k : Nat) (loc : Loc), locs[k + 1]? = some loc → loc.path ∈ mk →
+      isFileOptPath loc.path = true → k ∈ rm) := by
   unfold sweepRemoved at h
   cases hl : sweepLoop mk 0 none locs ⟨[], []⟩ with
   | none => simp [hl] at h
@@ -357,11 +364,76 @@ theorem sweep_complete (fixed : Bool) (mk : List (List Nat)) (locs : List Loc) (
     simp only [hl, Option.some.injEq] at h
     subst h
     have inv := sweepLoop_inv mk locs locs 0 none _ st (by simp) (sweepInv_init mk locs) hl
-    have hlt : k < locs.length := by
+    have hlt : ∀ (k : Nat) (loc : Loc), locs[k]? = some loc → k < locs.length := by
+      intro k loc hk
       rcases Nat.lt_or_ge k locs.length with h1 | h1
       · exact h1
       · simp [List.getElem?_eq_none h1] at hk
-    exact List.mem_append.mpr (Or.inl (inv.complete k hlt loc hk hm))
+    exact ⟨fun k loc hk hm => List.mem_append.mpr (Or.inl (inv.complete k (hlt k loc hk) loc hk hm)),
+      fun k loc hk hm hf => List.mem_append.mpr (Or.inl (inv.parents k (hlt (k + 1) loc hk) loc hk hm hf))⟩
+
+/-- SWEEP, composed to `Modify` itself (both preserve modes).  When `Modify` returns no error,
+    the source-info list of every output file is the input list minus a set `rm` of indices
+    (survivors unchanged, in order) such that, with `Changed f f' q` = "q is the path of an
+    option whose value differs between input file f and output file f'":
+    * sound: every removed location is at a `Changed` path, or is the entry immediately before
+      a `Changed` file-option location (its `[8]` parent), or is a FieldOptions location that
+      is a proper prefix of a `Changed` (hence removed) location;
+    * complete: every location at a `Changed` path is removed, and so is the entry immediately
+      before a `Changed` file-option location.
+    Hence locations of options that were NOT rewritten stay — whether the option is not
+    governed, exempted, already equal to the target, or unknown to managed mode.
+    PARTIAL in one respect: for a FieldOptions location (`[…, 8]`) only the upper bound is
+    proved (it can go only if one of the locations under it went); the exact condition of the
+    code ("and no location registered under it stays", with the trie's first-ancestor rule) is
+    tied by correspondence and by the harness oracle on compiler-shaped source info. -/
+theorem modify_sweep_exact_partial (p : Bool) (cfg : Config) (img : List File) {f f' : File}
+    (herr : (modifyWith true p cfg img).err = false) (h : Out p cfg img f f') :
+    ∃ rm : List Nat, f'.locs = removeIndices f.locs rm ∧
+      (∀ k ∈ rm,
+        (∃ loc : Loc, f.locs[k]? = some loc ∧ Changed f f' loc.path) ∨
+        (∃ loc : Loc, f.locs[k + 1]? = some loc ∧ Changed f f' loc.path ∧ isFileOptPath loc.path = true) ∨
+        (∃ loc : Loc, f.locs[k]? = some loc ∧ pathType loc.path = .fieldOptionsRoot ∧
+          ∃ (j : Nat) (loc' : Loc), f.locs[j]? = some loc' ∧ Changed f f' loc'.path ∧
+            properPrefix loc.path loc'.path = true)) ∧
+      (∀ (k : Nat) (loc : Loc), f.locs[k]? = some loc → Changed f f' loc.path → k ∈ rm) ∧
+      (∀ (k : Nat) (loc : Loc), f.locs[k + 1]? = some loc → Changed f f' loc.path →
+        isFileOptPath loc.path = true → k ∈ rm) := by
+  cases he : cfg.enabled
+  · obtain ⟨i, h1, h2⟩ := h
+    rw [(disabled_mode_identity p cfg img he).1, h1] at h2
+    cases h2
+    exact ⟨[], (removeIndices_nil _).symm, by intro k hk; simp at hk,
+      fun k loc _ hc => absurd hc (not_changed_self f _), fun k loc _ hc => absurd hc (not_changed_self f _)⟩
+  · obtain ⟨i, h1, h2⟩ := h
+    obtain ⟨l, rfl, hl⟩ := AllRel.get (modifyWith_ok true p cfg img he herr) i f f' h1 h2
+    simp only [modifyOptions_locs] at hl
+    have hch : ∀ q, q ∈ fileMarks p cfg f ↔
+        Changed f { modifyOptions p cfg f with locs := l } q := fun q =>
+      (fileMarks_iff_changed p cfg f q).trans (changed_congr rfl rfl q).symm
+    unfold sweepLocs at hl
+    split at hl
+    · rename_i hnil
+      cases hl
+      refine ⟨[], ?_, by intro k hk; simp at hk, ?_, ?_⟩
+      · show f.locs = _; exact (removeIndices_nil _).symm
+      · intro k loc _ hc; have := (hch _).mpr hc; rw [hnil] at this; simp at this
+      · intro k loc _ hc; have := (hch _).mpr hc; rw [hnil] at this; simp at this
+    · cases hs : sweepRemoved true (fileMarks p cfg f) f.locs with
+      | none => simp [hs] at hl
+      | some rm =>
+        simp only [hs, Option.map_some, Option.some.injEq] at hl
+        subst hl
+        refine ⟨rm, rfl, ?_, ?_, ?_⟩
+        · intro k hk
+          rcases sweep_sound _ _ _ hs k hk with ⟨loc, a, b⟩ | ⟨loc, a, b, c⟩ | ⟨loc, a, b, j, loc', c, d, e⟩
+          · exact Or.inl ⟨loc, a, (hch _).mp b⟩
+          · exact Or.inr (Or.inl ⟨loc, a, (hch _).mp b, c⟩)
+          · exact Or.inr (Or.inr ⟨loc, a, b, j, loc', c, (hch _).mp d, e⟩)
+        · intro k loc hk hc
+          exact (sweep_complete true _ _ _ hs).1 k loc hk ((hch _).mpr hc)
+        · intro k loc hk hc hf
+          exact (sweep_complete true _ _ _ hs).2 k loc hk ((hch _).mpr hc) hf
 
 /-- Before the fix the sweeper also removed FieldOptions locations that never had a child
     (`[default = 5]`, `[json_name = "x"]`) of fields nobody touched, as soon as any option of
@@ -373,100 +445,116 @@ theorem sweep_old_counterexample :
     sweepRemoved true [[8, 1]] [⟨[8], 0⟩, ⟨[8, 1], 1⟩, ⟨[4, 0, 2, 0, 8], 2⟩] = some [1, 0] := by
   decide
 
-
-
-/-! ### marks = rewritten options -/
-
-/-- The marks handed to the sweeper are exactly the SourceCodeInfo paths of the options that
-    a modifier rewrote: `[8, tag]` per rewritten file option, `field path ++ [8, 6]` per
-    rewritten jstype. -/
-theorem marks_exact (preserve : Bool) (cfg : Config) (f : File) (p : List Nat) :
-    p ∈ marks preserve cfg f ↔
-      (∃ o : StrOpt, (strChange preserve cfg f o).isSome = true ∧ p = [8, o.tag]) ∨
-      (∃ o : BoolOpt, (boolChange preserve cfg f o).isSome = true ∧ p = [8, o.tag]) ∨
-      ((optimizeChange preserve cfg f).isSome = true ∧ p = [8, optimizeForTag]) ∨
-      (∃ fd ∈ f.fields, (jsChange preserve cfg f fd).isSome = true ∧ fd.path ≠ [] ∧ p = fd.path ++ [8, 6]) := by
-  have hsAll : ∀ o : StrOpt, o ∈ StrOpt.all := by intro o; cases o <;> decide
-  have hbAll : ∀ o : BoolOpt, o ∈ BoolOpt.all := by intro o; cases o <;> decide
-  unfold marks
-  simp only [List.mem_append, List.mem_filterMap, Option.mem_toList]
-  constructor
-  · rintro (((⟨o, _, ho⟩ | ⟨o, _, ho⟩) | ho) | ⟨fd, hfd, ho⟩)
-    · cases hc : strChange preserve cfg f o <;> simp [hc] at ho
-      exact Or.inl ⟨o, by simp [hc], ho.symm⟩
-    · cases hc : boolChange preserve cfg f o <;> simp [hc] at ho
-      exact Or.inr (Or.inl ⟨o, by simp [hc], ho.symm⟩)
-    · cases hc : optimizeChange preserve cfg f <;> simp [hc] at ho
-      exact Or.inr (Or.inr (Or.inl ⟨rfl, ho.symm⟩))
-    · cases hc : jsChange preserve cfg f fd <;> simp [hc] at ho
-      exact Or.inr (Or.inr (Or.inr ⟨fd, hfd, by rw [hc]; rfl, ho.1, ho.2.symm⟩))
-  · rintro (⟨o, h1, rfl⟩ | ⟨o, h1, rfl⟩ | ⟨h1, rfl⟩ | ⟨fd, hfd, h1, h2, rfl⟩)
-    · obtain ⟨v, hv⟩ := Option.isSome_iff_exists.mp h1
-      exact Or.inl (Or.inl (Or.inl ⟨o, hsAll o, by simp [hv]⟩))
-    · obtain ⟨v, hv⟩ := Option.isSome_iff_exists.mp h1
-      exact Or.inl (Or.inl (Or.inr ⟨o, hbAll o, by simp [hv]⟩))
-    · obtain ⟨v, hv⟩ := Option.isSome_iff_exists.mp h1
-      exact Or.inl (Or.inr (by simp [hv]))
-    · obtain ⟨v, hv⟩ := Option.isSome_iff_exists.mp h1
-      exact Or.inr ⟨fd, hfd, by simp [hv, h2]⟩
-
-/-- A modifier reports a change exactly when the option's value differs afterwards. -/
-theorem str_marked_iff_changed (preserve : Bool) (cfg : Config) (f : File) (o : StrOpt) :
-    (strChange preserve cfg f o).isSome = true ↔ (applyOptions preserve cfg f).strOpts o ≠ f.strOpts o := by
-  unfold applyOptions
-  cases hc : strChange preserve cfg f o with
-  | none => simp [hc]
-  | some v =>
-    simp only [Option.isSome_some, true_iff, hc]
-    unfold strChange at hc
-    split at hc; · cases hc
-    split at hc; · cases hc
-    split at hc; · cases hc
-    cases hc
-    rename_i hne
-    intro heq
-    apply hne
-    rw [← heq]; rfl
-
-
 /-! ### idempotence -/
 
 /-- Applying managed mode to its own output changes nothing and reports no error (also when
-    the first application ended with a sweep error, and for the sweeper before the fix). -/
-theorem modify_idempotent (cfg : Config) (img : List File) :
-    (BufModel.Managed.modify cfg (BufModel.Managed.modify cfg img).files).files = (BufModel.Managed.modify cfg img).files ∧
-    (BufModel.Managed.modify cfg (BufModel.Managed.modify cfg img).files).err = false := by
-  unfold BufModel.Managed.modify
+    the first application ended with a sweep error; both preserve modes). -/
+theorem modify_idempotent (p : Bool) (cfg : Config) (img : List File) :
+    (modifyWith true p cfg (modifyWith true p cfg img).files).files = (modifyWith true p cfg img).files ∧
+    (modifyWith true p cfg (modifyWith true p cfg img).files).err = false := by
   rw [modifyWith_idempotent]
   exact ⟨rfl, rfl⟩
 
-/-! ### non-vacuity: a concrete run (versioned package, pre-set java_package, a disable rule by
-    path, a prefix override, a bool override, a jstype override; a WKT file alongside) -/
+/-! ### non-vacuity: a concrete run (versioned package, pre-set java_package, a non-governed
+    option `deprecated` (23) and a custom option (50001), a field with `deprecated` (3) and
+    jstype; a disable rule by path, a value override followed by a suffix override, a prefix
+    override, a bool override, a jstype override; a WKT file alongside) -/
 
-example : ∃ f', Out exCfg [exWkt, exFile] exFile f' :=
-  ⟨(BufModel.Managed.modify exCfg [exWkt, exFile]).files[1]'(by rw [modify_length]; decide), 1, rfl,
+example (p : Bool) : ∃ f', Out p exCfg [exWkt, exFile] exFile f' :=
+  ⟨(modifyWith true p exCfg [exWkt, exFile]).files[1]'(by rw [modify_length]; decide), 1, rfl,
     List.getElem?_eq_getElem _⟩
 
 example : isWKT exWkt.path = true ∧ isWKT exFile.path = false := by decide
 
+set_option maxRecDepth 100000 in
 example :
-    let out := (BufModel.Managed.modify exCfg [exWkt, exFile]).files.getD 1 exFile
-    out.strOpts .javaPackage = some "com.acme.weather.v1".toList ∧
+    let r := modifyWith true false exCfg [exWkt, exFile]
+    let out := r.files.getD 1 exFile
+    r.files.head? = some exWkt ∧                                   -- WKT file untouched
+    out.strOpts .javaPackage = some "acme.weather.v1.gen".toList ∧ -- value override, then suffix: no "com"
     out.strOpts .goPackage = some "gen/go/acme/weather/v1;weatherv1".toList ∧
     out.strOpts .objcClassPrefix = some "AWX".toList ∧
-    out.strOpts .csharpNamespace = none ∧                       -- disabled by path "acme"
+    out.strOpts .csharpNamespace = none ∧                          -- disabled by path "acme"
     out.strOpts .rubyPackage = some "Acme::Weather::V1".toList ∧
-    out.boolOpts .javaMultipleFiles = none ∧                    -- override false = protobuf default
+    out.boolOpts .javaMultipleFiles = none ∧                       -- override false = protobuf default
     out.boolOpts .ccEnableArenas = none ∧
-    out.fields.map (·.jstype) = [some 2, none] ∧                -- int64 rewritten, int32 not permitted
-    out.locs.map (·.payload) = [0, 5] ∧                         -- [8],[8,1],[…,8],[…,8,6] swept
-    (BufModel.Managed.modify exCfg [exWkt, exFile]).err = false := by
+    getOpt 23 out.opts = some (.bool true) ∧ getOpt 50001 out.opts = some (.raw 77) ∧
+    out.payload = 7 ∧
+    out.fields.map (·.opts) = [[(3, .bool true), (6, .num 2)], []] ∧ -- int64 rewritten, int32 not permitted
+    out.locs.map (·.payload) = [0, 3, 4, 5, 7, 8] ∧                -- [8],[8,1],[…,8,6] swept; [8],[8,23],[…,8],[…,8,3] kept
+    r.err = false := by
+  decide
+
+set_option maxRecDepth 100000 in
+/-- with `ModifyPreserveExisting` the pre-set java_package and jstype stay, and so do their
+    source locations. -/
+example :
+    let r := modifyWith true true exCfg [exWkt, exFile]
+    let out := r.files.getD 1 exFile
+    out.strOpts .javaPackage = some "com.old".toList ∧
+    out.strOpts .goPackage = some "gen/go/acme/weather/v1;weatherv1".toList ∧
+    out.fields.map (·.opts) = exFile.fields.map (·.opts) ∧
+    out.locs = exFile.locs ∧ r.err = false := by
   decide
 
 example : isFileOptionDisabled exCfg exFile .csharpNamespace = true := by decide
 
-example : strTarget exCfg exFile .goPackage = some "gen/go/acme/weather/v1;weatherv1".toList := by decide
+-- hypotheses of `precedence_bool` / `precedence_optimize`
+example : isFileOptionDisabled exCfg exFile BoolOpt.javaMultipleFiles.fileOpt = false ∧
+    (true && (exFile.boolOpts .javaMultipleFiles).isSome) = false ∧
+    isFileOptionDisabled exCfg exFile .optimizeFor = false ∧ (true && exFile.optimizeFor.isSome) = false := by
+  decide
 
-example : sweepRemoved true [[8, 1], [4, 0, 2, 0, 8, 6]] exFile.locs = some [4, 2, 1, 3] := by decide
+set_option maxRecDepth 100000 in
+-- the declarative description on the example: value override then suffix override
+example : strSpec exCfg exFile .javaPackage = some "acme.weather.v1.gen".toList ∧
+    strSpec exCfg exFile .goPackage = some "gen/go/acme/weather/v1;weatherv1".toList ∧
+    strSpec exCfg exFile .csharpNamespace = none := by decide
+
+-- hypotheses of `precedence_str_last_value` (a prefix override, then the value override, then an
+-- unrelated rule) and of `precedence_str_default`
+example : ∃ (pre post : List Override) (r : Override),
+    [⟨[], [], [], .javaPackagePrefix, false, "org".toList, false, 0⟩,
+     ⟨"acme".toList, [], [], .javaPackage, false, "x.y".toList, false, 0⟩,
+     ⟨[], [], [], .goPackagePrefix, false, "g".toList, false, 0⟩] = pre ++ r :: post ∧
+    fileMatch exFile r.path r.module = true ∧ r.fileOption = StrOpt.javaPackage.valueOpt ∧ r.sval ≠ [] ∧
+    ∀ r' ∈ post, relevant exFile .javaPackage r' = false :=
+  ⟨[⟨[], [], [], .javaPackagePrefix, false, "org".toList, false, 0⟩],
+   [⟨[], [], [], .goPackagePrefix, false, "g".toList, false, 0⟩],
+   ⟨"acme".toList, [], [], .javaPackage, false, "x.y".toList, false, 0⟩, rfl, by decide, rfl, by decide, by decide⟩
+
+example : isFileOptionDisabled exCfg exFile StrOpt.objcClassPrefix.valueOpt = false ∧
+    ∀ r ∈ exCfg.overrides, relevant exFile .objcClassPrefix r = false := by decide
+
+-- `jsWant` on the example: last matching override is JS_NUMBER (2); the int32 field is left alone
+example : exFile.fields.map (jsWant false exCfg exFile) = [some 2, none] ∧
+    exFile.fields.map (jsWant true exCfg exFile) = [some 1, none] := by decide
+
+-- hypotheses of `disabled_untouched_jstype`
+example : ∃ d : Disable, d.jstype = true ∧ fileMatch exFile d.path d.module = true ∧
+    d.fieldName = "acme.weather.v1.M.id".toList :=
+  ⟨⟨"acme/weather".toList, [], "acme.weather.v1.M.id".toList, .unspecified, true⟩, rfl, by decide, rfl⟩
+
+-- `Governs` / `JsGoverns` are satisfiable and refutable on the example
+example : Governs false exCfg exFile 1 ∧ ¬ Governs false exCfg exFile 37 ∧ ¬ Governs true exCfg exFile 1 ∧
+    ¬ Governs false exCfg exFile 23 := by
+  refine ⟨⟨rfl, by decide, .str .javaPackage, rfl, by decide, rfl⟩, ?_, ?_, ?_⟩
+  · rintro ⟨_, _, g, ht, hd, _⟩
+    have : g = .str .csharpNamespace := Gov.tag_inj _ _ ht
+    subst this; revert hd; decide
+  · rintro ⟨_, _, g, ht, _, hp⟩
+    have : g = .str .javaPackage := Gov.tag_inj _ _ ht
+    subst this; revert hp; decide
+  · rintro ⟨_, _, g, ht, _, _⟩
+    cases g with
+    | str o => cases o <;> exact absurd ht (by decide)
+    | bool o => cases o <;> exact absurd ht (by decide)
+    | optimize => exact absurd ht (by decide)
+
+set_option maxRecDepth 100000 in
+example : sweepRemoved true (fileMarks false exCfg exFile) exFile.locs = some [6, 2, 1] := by decide
+
+-- (the hypothesis `err = false` of `modify_sweep_exact_partial` is the last conjunct of the
+-- concrete run above)
 
 end BufProofs.C18
